@@ -864,8 +864,13 @@ class Parser(object):
                 body.append(nodes.Output(data_buffer[:], lineno=lineno))
                 del data_buffer[:]
 
-        def autoindent(rv, token):
-            prefix = token.value[:-3]
+        # the auto-indent marker is the start string followed by '*' ('{%*', '{{*'); a line statement prefix or a
+        # custom start string that merely ends in '*' is not a marker
+        block_marker = self.environment.block_start_string + '*'
+        variable_marker = self.environment.variable_start_string + '*'
+
+        def autoindent(rv, token, marker):
+            prefix = token.value[:-len(marker)]
             if isinstance(rv, list):
                 node = nodes.FilterBlock(lineno=token.lineno)
                 node.filter = nodes.Filter(None, 'lineprefix', [nodes.Const(prefix)], [], None, None, lineno=token.lineno)
@@ -886,8 +891,8 @@ class Parser(object):
                     next(self.stream)
                     rv = self.parse_tuple(with_condexpr=True)
                     # auto-indented multi-line variable using {{* ... }}
-                    if token.value and token.value.endswith('*'):
-                        rv = autoindent(rv, token)
+                    if token.value and token.value.endswith(variable_marker):
+                        rv = autoindent(rv, token, variable_marker)
                     add_data(rv)
                     self.stream.expect('variable_end')
                 elif token.type == 'block_begin':
@@ -898,8 +903,8 @@ class Parser(object):
                         return body
                     rv = self.parse_statement()
                     # auto-indented block using {%* ... %}
-                    if token.value and token.value.endswith('*'):
-                        body.append(autoindent(rv if isinstance(rv, list) else [rv], token))
+                    if token.value and token.value.endswith(block_marker):
+                        body.append(autoindent(rv if isinstance(rv, list) else [rv], token, block_marker))
                     elif isinstance(rv, list):
                         body.extend(rv)
                     else:
